@@ -287,7 +287,46 @@ def build_proto(case: dict) -> onnx.ModelProto:
     if case["ai"] is not None:
         imports.append(h.make_opsetid("ai.onnx", case["ai"]))
     imports += [h.make_opsetid("cust", 1), h.make_opsetid("fn", 1)]
+    _decorate(g)
     return h.make_model(g, opset_imports=imports, functions=funcs, ir_version=10)
+
+
+def _decorate(g) -> None:
+    """Metadata for the `_restore_metadata` stream: node names (every 5th repeats its predecessor's, every 7th has
+    none), node / graph / input metadata_props and doc strings.  Nothing else in the checks looks at them."""
+    g.doc_string = "gdoc"
+    g.metadata_props.add(key="gk", value="gv")
+    for j, i in enumerate(g.input):
+        if j % 2 == 0:
+            i.doc_string = f"d{j}"
+        i.metadata_props.add(key="ik", value=f"iv{j}")
+    ctr = [0]
+    last = [""]
+
+    def rec(nodes):
+        for n in nodes:
+            k = ctr[0]
+            ctr[0] += 1
+            if k % 7 == 6:
+                n.name = ""
+            elif k % 5 == 4 and last[0]:
+                n.name = last[0]
+            else:
+                n.name = f"n{k}"
+                last[0] = n.name
+            if k % 2 == 0:
+                n.doc_string = f"nd{k}"
+            n.metadata_props.add(key="mk", value=f"v{k}")
+            if k % 3 == 0:
+                n.metadata_props.add(key="m2", value=f"w{k}")
+            for a in n.attribute:
+                if a.type == 5:
+                    rec(a.g.node)
+                elif a.type == 10:
+                    for sg in a.graphs:
+                        rec(sg.node)
+
+    rec(g.node)
 
 
 def apply_versions(model, case: dict) -> None:
